@@ -540,6 +540,13 @@ def generate():
         conf = ('letmutresult=recvmsg(fd,&mutself.msghdr,RECVMSG_FLAGS);ifresult==0{self.msghdr.msg_controllen=CMSG_SPACE(MAX_FDS_IN_CMSGasusize*mem::size_of::<c_int>())asMsgControlLen;'
                 'self.msghdr.msg_flags=0;result=recvmsg(fd,&mutself.msghdr,RECVMSG_FLAGS|libc::MSG_DONTWAIT);ifresult<0&&matches!(UnixError::last(),UnixError::Errno(EAGAIN)){result=0;}}'
                 'letresult=matchresult.cmp(&0){cmp::Ordering::Equal=>Err(UnixError::ChannelClosed),') in cflat
+        # this flag selects the behaviour of the executable model (`Timed.call`, used by the driver): it is `false` only for the
+        # one form known to lack the confirmation (a single recvmsg whose result goes straight to the final match); any other
+        # text is "not recognised" and fails the unit, rather than letting the model claim the unconfirmed behaviour
+        legacy = (cflat.count('recvmsg(') == 1
+                  and 'letresult=recvmsg(fd,&mutself.msghdr,RECVMSG_FLAGS);letresult=matchresult.cmp(&0){cmp::Ordering::Equal=>Err(UnixError::ChannelClosed),' in cflat)
+        if not conf and not legacy:
+            fail("UnixCmsg::recv: how end of file is established (confirmed by a second look, or not) is not recognised")
         out.append(f"def shape_eofConfirmed : Bool := {'true' if conf else 'false'}  -- recvmsg() == 0 is followed by one more non-blocking recvmsg before `ChannelClosed`")
         m = re.search(r'cmp::Ordering::Equal\s*=>\s*return\s+Err\(UnixError::Errno\(EAGAIN\)\)', crecv)
         out.append(f"def shape_pollTimeoutIsEagain : Bool := {'true' if m else 'false'}")
@@ -698,6 +705,94 @@ def generate():
         out.append(f"def shape_embedClonesSenderMovesReceiver : Bool := {'true' if mv else 'false'}")
         out.append("")
     run_unit('GenIpc', unit_ipc)
+    def unit_inproc(out):
+        # the in-process transport (C03 / C10 / C19 / C09 on `--features force-inprocess`): which crossbeam call each receive
+        # makes and how every outcome of that call is mapped to the platform error, how the platform error is mapped to the
+        # public one, and a few statement facts (unbounded queue, `consume` empties the handle, `send` passes its vectors on)
+        try:
+            inproc = open(os.path.join(REPO, 'src/platform/inprocess/mod.rs')).read()
+        except OSError as e:
+            fail(f"cannot read src/platform/inprocess/mod.rs: {e}")
+        src = strip_comments(inproc)
+        out.append("inductive XCall | recv | tryRecv | recvTimeout")
+        out.append("deriving Repr, DecidableEq")
+        out.append("inductive XPat | any | empty | timeout | disconnected  -- `Err(_)`, `…::Empty`, `…::Timeout`, `…::Disconnected`")
+        out.append("deriving Repr, DecidableEq")
+        out.append("inductive CErr | closed | broken | empty | unknown")
+        out.append("deriving Repr, DecidableEq")
+        variants = {'ChannelClosedError': 'closed', 'BrokenPipeError': 'broken', 'ChannelEmpty': 'empty', 'UnknownError': 'unknown'}
+        calls = {'recv': (r'\.recv\(\)', 'recv'), 'try_recv': (r'\.try_recv\(\)', 'tryRecv'), 'try_recv_timeout': (r'\.recv_timeout\(duration\)', 'recvTimeout')}
+        m0 = src.find('impl OsIpcReceiver {')
+        if m0 < 0:
+            fail("in-process OsIpcReceiver impl not found")
+        rimpl = src[m0:find_block(src, m0 + len('impl OsIpcReceiver {'))]
+        for fn, (rx, lean) in calls.items():
+            m = re.search(r'pub fn ' + fn + r'\(', rimpl)
+            if not m:
+                fail(f"in-process {fn} not found")
+            b0 = rimpl.find('{', rimpl.find('ChannelError>', m.end()))
+            body = re.sub(r'\s+', '', rimpl[b0 + 1:find_block(rimpl, b0 + 1) - 1])
+            made = [l for (r, l) in calls.values() if re.search(r, body)]
+            allcalls = sum(len(re.findall(r, body)) for (r, l) in calls.values())
+            if made != [lean] or allcalls != 1:
+                fail(f"in-process {fn}: expected exactly one crossbeam call ({lean}), found {made} ({allcalls} calls)")
+            for tok in (r'\breturn\b', r'\bif\b', r'\bloop\b', r'\bwhile\b', r'\bfor\b', r'select', r'after\(', r'tick\('):
+                if re.search(tok, body):
+                    fail(f"in-process {fn}: unexpected construct {tok!r}")
+            if not re.search(r'Ok\(ChannelMessage\((\w+),(\w+),(\w+)\)\)=>\{?Ok\(\(\1,\2\.into_iter\(\)\.map\(OsOpaqueIpcChannel::new\)\.collect\(\),\3\)\)', body):
+                fail(f"in-process {fn}: the message arm does not pass data, channels and regions through")
+            arms = []
+            for mm in re.finditer(r'(Err\(_\)|(?:\w+::)?(?:Empty|Timeout|Disconnected))=>Err\(ChannelError::(\w+)\)', body):
+                pat = mm.group(1)
+                pat = 'any' if pat == 'Err(_)' else pat.split('::')[-1].lower()
+                if mm.group(2) not in variants:
+                    fail(f"in-process {fn}: unknown ChannelError::{mm.group(2)}")
+                arms.append(f"(.{pat}, .{variants[mm.group(2)]})")
+            if len(arms) != len(re.findall(r'=>Err\(', body)):
+                fail(f"in-process {fn}: an error arm that is not of the form `pattern => Err(ChannelError::…)`")
+            out.append(f"def inprocCall_{lean} : XCall := .{lean}")
+            out.append(f"def inprocArms_{lean} : List (XPat × CErr) := [" + ", ".join(arms) + "]")
+        flat = re.sub(r'\s+', '', src)
+        # conversions to the public errors
+        def conv(target, rx_arms):
+            m = re.search(r'implFrom<ChannelError>for' + target + r'\{fnfrom\(error:ChannelError\)->Self\{matcherror\{(.*?)\}\}\}', flat)
+            if not m:
+                fail(f"From<ChannelError> for {target} not found")
+            return m.group(1)
+        a = conv('ipc::IpcError', None)
+        b = conv('ipc::TryRecvError', None)
+        out.append(f"def inprocConvIpcError : Bool := {'true' if a.startswith('ChannelError::ChannelClosedError=>ipc::IpcError::Disconnected,') and a.count('Disconnected') == 1 else 'false'}  -- closed -> Disconnected, nothing else is")
+        ok_b = (b.startswith('ChannelError::ChannelClosedError=>{ipc::TryRecvError::IpcError(ipc::IpcError::Disconnected)},ChannelError::ChannelEmpty=>ipc::TryRecvError::Empty,')
+                and b.count('Disconnected') == 1 and b.count('TryRecvError::Empty') == 1)
+        out.append(f"def inprocConvTryRecvError : Bool := {'true' if ok_b else 'false'}  -- closed -> Disconnected, empty -> Empty, nothing else is either")
+        out.append(f"def inprocUnbounded : Bool := {'true' if 'crossbeam_channel::unbounded::<ChannelMessage>()' in flat and 'bounded(' not in flat.replace('unbounded(', '') and 'bounded::<' not in flat.replace('unbounded::<', '') else 'false'}")
+        out.append(f"def inprocConsumeTakes : Bool := {'true' if 'pubfnconsume(&self)->OsIpcReceiver{OsIpcReceiver{receiver:RefCell::new(self.receiver.borrow_mut().take()),}}' in flat else 'false'}")
+        snd = 'Ok(self.sender.borrow().send(ChannelMessage(data.to_vec(),ports,shared_memory_regions)).map_err(|_|ChannelError::BrokenPipeError)?)'
+        m = re.search(r'pubfnsend\(&self,data:&\[u8\],ports:Vec<OsIpcChannel>,shared_memory_regions:Vec<OsIpcSharedMemory>,?\)->Result<\(\),ChannelError>\{(.*?)\}\}pubstructOsIpcReceiverSet', flat)
+        out.append(f"def inprocSendPassesThrough : Bool := {'true' if m and m.group(1) == snd else 'false'}  -- the whole body of send: one queue operation with the three parts as given")
+        out.append(f"def inprocAddMoves : Bool := {'true' if 'self.receivers.push(receiver.consume());' in flat else 'false'}")
+        # the rendezvous registry (C08 / C19): `new` registers the name, `accept` and dropping the server unregister it, `connect` looks it
+        # up without unwrapping (an unknown name is an error, not a panic with the registry locked)
+        reg_new = 'ONE_SHOT_SERVERS.lock().unwrap().insert(name.clone(),record);' in flat
+        m = re.search(r'pubfnconnect\(name:String\)->Result<OsIpcSender,ChannelError>\{(.*?)\}pubfnget_max_fragment_size', flat)
+        if not m:
+            fail("in-process connect not found")
+        cbody = m.group(1)
+        checked = ('ONE_SHOT_SERVERS.lock().unwrap().get(&name).cloned().ok_or(ChannelError::UnknownError)?;' in cbody and 'unwrap().get(&name).unwrap()' not in cbody
+                   and cbody.count('unwrap()') == 1)
+        legacy_conn = 'letrecord=ONE_SHOT_SERVERS.lock().unwrap().get(&name).unwrap().clone();' in cbody
+        if not checked and not legacy_conn:
+            fail("in-process connect: how the registry lookup handles an unknown name is not recognised")
+        acc_unreg = re.search(r'record\.accept\(\);ONE_SHOT_SERVERS\.lock\(\)\.unwrap\(\)\.remove\(&self\.name\)\.unwrap\(\);', flat) is not None
+        drop_unreg = 'implDropforOsIpcOneShotServer{fndrop(&mutself){ifletOk(mutservers)=ONE_SHOT_SERVERS.lock(){servers.remove(&self.name);}}}' in flat
+        no_drop = 'implDropforOsIpcOneShotServer' not in flat
+        if not drop_unreg and not no_drop:
+            fail("in-process one-shot server: its Drop impl is not recognised")
+        out.append(f"def inprocNewRegisters : Bool := {'true' if reg_new else 'false'}")
+        out.append(f"def inprocConnectChecked : Bool := {'true' if checked else 'false'}  -- false: `.get(&name).unwrap()` with the registry locked")
+        out.append(f"def inprocAcceptUnregisters : Bool := {'true' if acc_unreg else 'false'}")
+        out.append(f"def inprocDropUnregisters : Bool := {'true' if drop_unreg else 'false'}  -- false: no Drop impl, a server dropped unused stays registered")
+    run_unit('GenInproc', unit_inproc)
     def unit_async(out):
         # the routing thread of the async feature (C20): every select result is handled, messages are forwarded to the route's
         # queue, a closure removes the route (dropping the queue's sender ends the stream), every pending registration is taken
